@@ -107,6 +107,8 @@ def register(reg):
     k.ens("merged-equals-sequence", simplify_sem)
     k.ens("merged-valid-on-the-upstream-target", simplify_valid)
     k.ens("merged-supported-where-both-are", simplify_supp)
+    k.ens("merged-is-of-the-new-operations-kind-or-the-upstream-operation",
+          lambda c: B(z3.Or(c.result.z == smt.NONE, smt.typ(c.result.z) == smt.typ(c.self.z), c.result.z == (c.upstream.z if "upstream" in c.args else c.current.z))))
 
 
 # ====================================================================== commute (C04)
@@ -183,6 +185,8 @@ def register_commute(reg):
           lambda c: c.forall([(TRefT(None), "eng")], lambda g: no_X(c, lambda me, cur, C, f, s, d: z3.Implies(
               z3.And(f != smt.NONE, V.supp(me, g.z), V.supp(cur, g.z)), z3.And(V.supp(f, g.z), V.supp(s, g.z)))),
               patterns=lambda g: [V.supp(c.attr(c.result, "first").z, g.z), V.supp(c.attr(c.result, "second").z, g.z)]))
+    k.ens("second-operation-can-be-a-node",
+          lambda c: no_X(c, lambda me, cur, C, f, s, d: z3.Or(*[smt.typ(s) == c.ex.types.cid(c.ex.repo.cls(n)) for n in NODE_OPS + ("Identity",)])))
     k.ens("moved-operation-is-of-the-same-kind",
           lambda c: no_X(c, lambda me, cur, C, f, s, d: z3.Implies(f != smt.NONE, z3.And(smt.typ(f) == smt.typ(me),
                                                                                       z3.Implies(smt.typ(me) == c.ex.types.cid(c.ex.repo.cls("PartialJoin")), f == me)))))
